@@ -85,6 +85,7 @@ type VC struct {
 	recOwner *opaqueDef
 	quants   map[string]*quantInfo
 	revealed map[string]bool
+	hidden   map[string]bool
 	grounding map[string]bool
 	binder   int
 	usedContracts map[string]bool
